@@ -885,7 +885,8 @@ func runRuntime(cfg *lib.Config, res *lib.Result, c px.Context) {
 	}
 	cf := &lib.CasesFile{Imports: []string{"Model.Base", "Model.InferRuntime", "Corr.CorrC04"}, Typ: "rcase",
 		Obligations: map[string]string{"runtime_model": "runtime_mismatches gtab gnames cases"}}
-	cf.Prelude = "Definition gtab : list (N * N) := " + lib.GList(gt, "N * N") + ".\nDefinition gnames : list (N * str) := " + lib.GList(gn, "N * str") + ".\n"
+	tables := "Definition gtab : list (N * N) := " + lib.GList(gt, "N * N") + ".\nDefinition gnames : list (N * str) := " + lib.GList(gn, "N * str") + ".\n"
+	cf.Prelude = tables
 	var leafT []*rtTy
 	var leafD []rtDec
 	for _, te := range tys[:nPool] {
@@ -960,6 +961,8 @@ func runRuntime(cfg *lib.Config, res *lib.Result, c px.Context) {
 	cf.Prelude += strings.Join(rtDefs, "")
 	res.Extra["runtime_model_cases"] = len(cf.Cases)
 	res.CorrFiles = append(res.CorrFiles, cf.WriteTo(cfg.Out, "cases_runtime"))
+	// ---- M: the container layer over the Runtime leaves (Model/InferRuntimeColl.v), rtcoll.go
+	runRtColl(cfg, res, vals, tys, tables)
 }
 
 // ---------------------------------------------------------------------------------------------
